@@ -3,6 +3,8 @@ import ShellOp.Proofs.Retry
 import ShellOp.Proofs.HookOutput
 import ShellOp.Proofs.Wait
 import ShellOp.Proofs.Payload
+import ShellOp.Proofs.TransMetrics
+import ShellOp.Proofs.MetricsText
 /-!
 # C04 — failed runs are retried until success and block the queue unless allowFailure
 
@@ -716,6 +718,104 @@ open ShellOp.HookOutput in
 example : runOk (.signaled 9) [] true = false ∧ runOk (.exited 255) [] true = false
     ∧ runOk (.exited 0) [] true = true
     ∧ runOk (.signaled 15) "{\"name\":\"m\",\"set\":1}\n".toList true = false := by decide
+
+/-! ## C04.10 "… or its … metric … output cannot be … applied": accepted ⇒ applied
+
+`SendBatch` validates, then applies: ungrouped operations through `sendBatchV0`, grouped ones through
+`applyGroupOperations`, whose loop has no branch (and no error) for an action it does not know
+(`HookOutput.applyOp`). A run may count as successful only if every operation of its metrics file
+took a branch with an effect — the validation must reject whatever nothing would apply. -/
+
+open ShellOp.HookOutput in
+/-- **C04.10 `accepted_operation_is_applied`**: every operation the validation accepts is applied
+by a branch with an effect (never the error of the ungrouped path, never dropped silently by the
+grouped loop), and unless it is an expire it names the series it is applied to. -/
+theorem accepted_operation_is_applied (op : MetricOp) (h : validOp op = true) :
+    applyOp op = .effect ∧ (op.action ≠ "expire".toList → op.name ≠ []) :=
+  ⟨validOp_applied op h, validOp_named op h⟩
+
+open ShellOp.HookOutput in
+/-- **C04.10 `accepted_metrics_all_applied`**: a run that counts as successful has applied EVERY
+operation of its (non-empty) metrics file. -/
+theorem accepted_metrics_all_applied (p : ProcEnd) (file : List Char) (patchOk : Bool) (hne : file ≠ [])
+    (h : runOk p file patchOk = true) :
+    ∃ ops, fromReader file = some ops ∧ ∀ op ∈ ops, applyOp op = .effect := by
+  simp only [runOk, Bool.and_eq_true] at h
+  exact metricsOk_all_applied file hne h.1.2
+
+open ShellOp.HookOutput in
+/-- **C04.10 `unapplicable_output_is_failed_run`**: a run whose metrics file — however the process
+ended, whatever the patch outcome — contains an operation that nothing applies (`applyOp ≠ effect`:
+e.g. a grouped `observe`) is a *failed* run: for a head task that does not allow failure the task
+stays at the head with the contexts it was executed with, its failure counter grows, the worker
+sleeps the back-off — no later task of the queue runs. -/
+theorem unapplicable_output_is_failed_run (cfg : Cfg) (s : State) (t : Task) (rest : List Task) (rnd : Nat)
+    (p : ProcEnd) (file : List Char) (patchOk : Bool) (ops : List MetricOp) (op : MetricOp)
+    (hf : fromReader file = some ops) (hop : op ∈ ops) (hn : applyOp op ≠ .effect)
+    (hs : s.items = t :: rest) (ht : t.typ = 0) (hm : t.hasMeta = true)
+    (nd : ((t :: rest).map (·.id)).Nodup)
+    (hr : shouldRunHook (cfg.version t.hook) t = true) (ha : t.allowFailure = false) :
+    let s' := step cfg s (.run (runOk p file patchOk) rnd)
+    s'.items = ranTask cfg t rest :: restAfter cfg t rest ∧
+    (ranTask cfg t rest).id = t.id ∧
+    s'.fc t.id = s.fc t.id + 1 ∧
+    s'.sleep = cfg.backoff (s.fc t.id) rnd ∧
+    s'.log = s.log ++ [⟨t.id, t.hook, (ranTask cfg t rest).ctxs, false, s.clock + s.sleep⟩] := by
+  have hok : runOk p file patchOk = false := by
+    simp [runOk, unapplied_not_ok file ops hf op hop hn]
+  rw [hok]
+  exact fail_keeps_head cfg s t rest rnd hs ht hm nd hr ha
+
+open ShellOp.HookOutput in
+/-- **C04.10 `grouped_observe_is_dropped`**: the grouped loop has no branch for `observe` (nor for any
+action other than expire / add / set without the deprecated pointers): such an operation satisfies
+the hypothesis of `unapplicable_output_is_failed_run`. -/
+theorem grouped_observe_is_dropped (op : MetricOp) (hg : op.group ≠ []) (ha : op.action = "observe".toList)
+    (hS : op.set = false) (hA : op.add = false) : applyOp op = .nothing := by
+  have hg' : (op.group == ([] : List Char)) = false := by simpa using hg
+  simp [applyOp, hg', ha, hS, hA]
+
+open ShellOp.HookOutput in
+/-- **Witness** (kernel-checked): with the two action tables merged into one switch ("set, add, observe
+are common actions") a grouped observe with every member in place is accepted although nothing applies
+it; the code's table rejects it. -/
+theorem merged_action_table_witness :
+    let op : MetricOp := { group := "g".toList, name := "h".toList, action := "observe".toList, value := true, buckets := true }
+    validOpMergedTable op = true ∧ applyOp op = .nothing ∧ validOp op = false := by decide
+
+open ShellOp.HookOutput in
+/-- Non-vacuity: the grouped observe as a file (rejected: failed run), a grouped add and an ungrouped
+observe (accepted), an ungrouped expire (rejected); the hypotheses of `unapplicable_output_is_failed_run`
+hold for the first text. -/
+example : runOk (.exited 0) "{\"group\":\"g\",\"name\":\"h\",\"action\":\"observe\",\"value\":1,\"buckets\":[1,2]}".toList true = false
+    ∧ runOk (.exited 0) "{\"group\":\"g\",\"name\":\"c\",\"action\":\"add\",\"value\":1}".toList true = true
+    ∧ runOk (.exited 0) "{\"name\":\"h\",\"action\":\"observe\",\"value\":1,\"buckets\":[1,2]}".toList true = true
+    ∧ runOk (.exited 0) "{\"name\":\"h\",\"action\":\"expire\"}".toList true = false
+    ∧ (fromReader "{\"group\":\"g\",\"name\":\"h\",\"action\":\"observe\",\"value\":1,\"buckets\":[1,2]}".toList).map
+        (·.map applyOp) = some [.nothing] := by decide
+
+/-- **C04.10 tie T4 `translated_validation_accepts_only_applied`**: `ValidateMetricOperation` as
+TRANSLATED from the Go source on every run (`Generated/Trans.lean`, number of errors appended) accepts
+only operations that `sendBatchV0` / `applyGroupOperations` apply with an effect: for every decoded
+document `m` and every typed reading `op` of it (same presence of the members, same action), no
+error from the translated function ⇒ `applyOp m = effect`. -/
+theorem translated_validation_accepts_only_applied (m : ShellOp.HookOutput.MetricOp) (op : ShellOp.Metrics.Op)
+    (h : ShellOp.MetricsText.abstracts m op = true) (hv : Trans.validateMetricOperation op = 0) :
+    ShellOp.HookOutput.applyOp m = .effect := by
+  have hu : Facts.c16UngroupedActions = ["set", "add", "observe"] := by decide
+  have hg : Facts.c16GroupedActions = ["expire", "set", "add"] := by decide
+  have hvalid := (ShellOp.Proofs.TransMetrics.validate_op_iff op hu hg).mp hv
+  rw [← ShellOp.MetricsText.validOp_of_abstracts m op h hu hg] at hvalid
+  exact ShellOp.HookOutput.validOp_applied m hvalid
+
+/-- Non-vacuity: a grouped add is a reading the translated validation accepts; the grouped observe is
+a reading it rejects. -/
+example :
+    ShellOp.MetricsText.abstracts { group := "g".toList, name := "c".toList, action := "add".toList, value := true }
+      { group := 1, name := 2, action := "add", value := some 2 } = true
+    ∧ Trans.validateMetricOperation { group := 1, name := 2, action := "add", value := some 2 } = 0
+    ∧ Trans.validateMetricOperation { group := 1, name := 2, action := "observe", value := some 2, buckets := true } ≠ 0 := by
+  decide
 
 /-! ## C04.8 "a back-off delay never shorter than the initial delay": `CancelTaskDelay`
 
